@@ -31,7 +31,8 @@ type gen struct {
 	curPkg     *Pkg
 	curTypes   []*TypeDecl
 	curEarlier []*Pkg
-	inXTest    bool // generating the external test package: the own package is an import
+	inXTest    bool        // generating the external test package: the own package is an import
+	sibling    func() Stmt // draws one more simple site for the current body (set by genBody)
 }
 
 func (g *gen) chance(label string, pct int) bool {
@@ -196,6 +197,25 @@ func (g *gen) genPkg(pkg *Pkg, earlier []*Pkg) {
 		types = append(types, td)
 		decls = g.add(decls, td)
 	}
+	// ---- named containers of annotated struct types (type Users []d.User): the
+	// element type is never written where the container is instantiated
+	{
+		var elems []*TypeDecl
+		for _, t := range visibleTypes(types, earlier) {
+			if t.Kind == KStruct {
+				elems = append(elems, t)
+			}
+		}
+		if len(elems) > 0 && g.chance("containerType", 35) {
+			el := elems[g.pick("containerElem", len(elems))]
+			ct := &TypeDecl{ID: g.p.NewID(), Pkg: pkg, Kind: KSliceOf, Name: fmt.Sprintf("Many%s%d", strings.ToUpper(el.Name[:1])+el.Name[1:], len(types)), Elem: &TypeRef{Type: el}}
+			if g.chance("containerMap", 40) {
+				ct.Kind = KMapOf
+			}
+			types = append(types, ct)
+			decls = g.add(decls, ct)
+		}
+	}
 	// ---- interfaces and @implements (same-named interfaces of different
 	// packages deliberately have different method sets)
 	if g.has("impl") {
@@ -238,7 +258,7 @@ func (g *gen) genPkg(pkg *Pkg, earlier []*Pkg) {
 			}
 		}
 		for _, td := range types {
-			if td.Kind == KIface || len(ifaces) == 0 || !g.chance("implements", 35) {
+			if td.Kind == KIface || td.Elem != nil || len(ifaces) == 0 || !g.chance("implements", 35) {
 				continue
 			}
 			it := ifaces[g.pick("implIface", len(ifaces))]
@@ -300,7 +320,7 @@ func (g *gen) genPkg(pkg *Pkg, earlier []*Pkg) {
 	// ---- methods with annotations (testonly/packageonly) and plain ones
 	var funcs []*FuncDecl
 	for _, td := range types {
-		if td.Kind == KIface {
+		if td.Kind == KIface || td.Elem != nil {
 			continue
 		}
 		nm := rapid.IntRange(0, 2).Draw(t, "nmethods")
@@ -309,6 +329,9 @@ func (g *gen) genPkg(pkg *Pkg, earlier []*Pkg) {
 			funcs = append(funcs, fd)
 			decls = g.add(decls, fd)
 		}
+	}
+	for _, td := range types {
+		td.methodsClosed = true
 	}
 	// ---- functions
 	nf := rapid.IntRange(1, 3).Draw(t, "nfuncs")
@@ -707,6 +730,15 @@ func (g *gen) genFunc(pkg *Pkg, recvType *TypeDecl, name string, own []*TypeDecl
 }
 
 func (g *gen) genBody(sc *scope, pkg *Pkg, own []*TypeDecl, earlier []*Pkg, depth int, top bool) []Stmt {
+	prev := g.sibling
+	g.sibling = func() Stmt {
+		st := g.genSite(sc, pkg, own, earlier)
+		if _, ok := st.(*Site); ok {
+			return st
+		}
+		return nil
+	}
+	defer func() { g.sibling = prev }()
 	n := rapid.IntRange(1, 5).Draw(g.t, "nstmts")
 	if depth > 0 {
 		n = rapid.IntRange(1, 2).Draw(g.t, "nstmtsInner")
@@ -740,6 +772,19 @@ func (g *gen) maybeWrap(sc *scope, s Stmt, depth int) Stmt {
 		}
 		k := WrapKind(g.pick("wrapKind", int(WClosureParams))) // closureparams handled separately
 		w := &Wrap{Kind: k, Body: []Stmt{s}}
+		// a sibling statement before or after, so that "the following statement" is not the whole body
+		if g.sibling != nil && g.chance("wrapSibling", 30) {
+			gen := g.sibling
+			g.sibling = nil // no recursion
+			if sib := gen(); sib != nil {
+				if g.chance("siblingFirst", 50) {
+					w.Body = []Stmt{sib, s}
+				} else {
+					w.Body = []Stmt{s, sib}
+				}
+			}
+			g.sibling = gen
+		}
 		if k == WVarClosure {
 			g.vseq++
 			w.Name = fmt.Sprintf("fn%d", g.vseq)
@@ -852,6 +897,15 @@ func (g *gen) localName() string {
 }
 
 func (g *gen) ctorFamily(sc *scope, td *TypeDecl) Stmt {
+	if td.Elem != nil {
+		return &Site{ID: g.p.NewID(), Kind: "elided.named", Type: td.Elem.Type, Ref: &TypeRef{Type: td}}
+	}
+	// T{In: U{}}: a literal nested in a literal
+	if td.Kind == KStruct && g.chance("nestedLit", 15) {
+		if in := td.FieldByName("In"); in != nil && in.Type != nil && in.Type.Kind == KStruct && !in.Embedded && (in.Type.Exported() || (in.Type.Pkg == g.curPkg && !g.inXTest)) {
+			return &Site{ID: g.p.NewID(), Kind: "lit.nested", Type: td, Ref: &TypeRef{Type: td}, Field: in}
+		}
+	}
 	s := &Site{ID: g.p.NewID(), Type: td, Ref: &TypeRef{Type: td}}
 	k := g.pick("ctorKind", 100)
 	lits := td.Kind != KInt
@@ -937,6 +991,19 @@ func methodsOf(t *TypeDecl) []*FuncDecl {
 	return out
 }
 
+// allMethodsOf also sees methods declared in _test.go files of the package.
+func allMethodsOf(t *TypeDecl) []*FuncDecl {
+	var out []*FuncDecl
+	for _, f := range t.Pkg.Files {
+		for _, d := range f.Decls {
+			if fd, ok := d.(*FuncDecl); ok && fd.Recv != nil && fd.Recv.Ref.Type == t {
+				out = append(out, fd)
+			}
+		}
+	}
+	return out
+}
+
 // callFamily: calls / references of functions and methods of earlier packages
 // (own-package functions are still being generated, so only earlier ones).
 func (g *gen) callFamily(sc *scope, pkg *Pkg, td *TypeDecl, own []*TypeDecl, earlier []*Pkg) Stmt {
@@ -972,6 +1039,58 @@ func (g *gen) callFamily(sc *scope, pkg *Pkg, td *TypeDecl, own []*TypeDecl, ear
 					&Filler{Text: fd.Name + " := func() {}"},
 					&Site{ID: g.p.NewID(), Kind: "decoycall", Aux: fd.Name},
 				}}
+			}
+		}
+	}
+	// method promoted through an embedded field: w.M() where w's type embeds the method's type
+	if g.chance("promotedCall", 12) {
+		for _, w := range visibleTypes(own, earlier) {
+			if w.Kind != KStruct {
+				continue
+			}
+			for _, f := range w.Fields {
+				if !f.Embedded || f.Type == nil {
+					continue
+				}
+				ownNames := map[string]bool{}
+				for _, fl := range w.Fields {
+					ownNames[fl.Name] = true
+				}
+				wm := allMethodsOf(w)
+				if w.Pkg == pkg {
+					for _, d := range g.cur {
+						if fd, ok := d.(*FuncDecl); ok && fd.Recv != nil && fd.Recv.Ref.Type == w {
+							wm = append(wm, fd)
+						}
+					}
+				}
+				for _, m := range wm {
+					ownNames[m.Name] = true
+				}
+				tm := methodsOf(f.Type)
+				if f.Type.Pkg == pkg {
+					tm = nil
+					for _, d := range g.cur {
+						if fd, ok := d.(*FuncDecl); ok && fd.done && fd.Recv != nil && fd.Recv.Ref.Type == f.Type {
+							tm = append(tm, fd)
+						}
+					}
+				}
+				for _, m := range tm {
+					okArgs := true
+					for _, pv := range m.Params {
+						if pv.Ref != nil && !pv.Ref.Ptr && pv.Ref.Type.Kind == KStruct {
+							okArgs = false
+						}
+					}
+					// a pointer-receiver method needs an addressable / pointer path to the embedded value
+					if ownNames[m.Name] || !okArgs || (w.Pkg == pkg && !w.methodsClosed) {
+						continue
+					}
+					m.called = true
+					o := sc.operand(w, true, true)
+					return &Site{ID: g.p.NewID(), Kind: "mcall.promoted", Fn: m, Opnd: o}
+				}
 			}
 		}
 	}
@@ -1012,6 +1131,9 @@ func (g *gen) callFamily(sc *scope, pkg *Pkg, td *TypeDecl, own []*TypeDecl, ear
 func (g *gen) genPkgVarSite(pkg *Pkg, name string, own []*TypeDecl, earlier []*Pkg) *Site {
 	vis := visibleTypes(own, earlier)
 	td := vis[g.pick("pvType", len(vis))]
+	if td.Elem != nil {
+		return &Site{ID: g.p.NewID(), Kind: "elided.named", Type: td.Elem.Type, Ref: &TypeRef{Type: td}, Local: name, Form: "pkgvar"}
+	}
 	s := &Site{ID: g.p.NewID(), Type: td, Ref: &TypeRef{Type: td}, Local: name, Form: "pkgvar"}
 	k := g.pick("pvKind", 100)
 	lits := td.Kind != KInt
@@ -1053,6 +1175,35 @@ func (g *gen) genIndirect(pkg *Pkg, earlier []*Pkg, n int) []Decl {
 	}
 	t := cands[g.pick("indType", len(cands))]
 	var out []Decl
+	sitesOn := func(o *Var, sc *scope) []Stmt {
+		var body []Stmt
+		k := rapid.IntRange(1, 3).Draw(g.t, "indSites")
+		for i := 0; i < k; i++ {
+			ms := methodsOf(t)
+			if len(ms) > 0 && g.chance("indMethod", 60) {
+				fd := ms[g.pick("indM", len(ms))]
+				ok := true
+				for _, p := range fd.Params {
+					if p.Ref != nil && (!p.Ref.Ptr && p.Ref.Type.Kind == KStruct || !p.Ref.Type.Exported() && p.Ref.Type.Pkg != pkg) {
+						ok = false
+					}
+				}
+				if ok {
+					fd.called = true
+					kind := "mcall"
+					if g.chance("indMValue", 20) {
+						kind = "mvalue"
+					}
+					body = append(body, g.maybeWrap(sc, &Site{ID: g.p.NewID(), Kind: kind, Fn: fd, Opnd: o}, 1))
+					continue
+				}
+			}
+			if s := g.immSite(sc, t, o); s != nil {
+				body = append(body, g.maybeWrap(sc, s, 1))
+			}
+		}
+		return body
+	}
 	if !t.Exported() {
 		// reachable only through the declaring package's exported getter
 		getter := g.findFunc(t.Pkg, "Get"+strings.ToUpper(t.Name[:1])+t.Name[1:])
@@ -1063,15 +1214,10 @@ func (g *gen) genIndirect(pkg *Pkg, earlier []*Pkg, n int) []Decl {
 		sc := &scope{g: g}
 		sc.addPar = func(v *Var) { u.Params = append(u.Params, v) }
 		o := &Var{Name: "_", Ref: &TypeRef{Type: t, Ptr: true}, CallOf: getter}
-		k := rapid.IntRange(1, 3).Draw(g.t, "unexpSites")
-		for i := 0; i < k; i++ {
-			if s := g.immSite(sc, t, o); s != nil {
-				u.Body = append(u.Body, g.maybeWrap(sc, s, 1))
-			}
-		}
+		u.Body = sitesOn(o, sc)
 		return []Decl{u}
 	}
-	sitesOn := func(o *Var, sc *scope) []Stmt {
+	sitesOnOld := func(o *Var, sc *scope) []Stmt {
 		var body []Stmt
 		k := rapid.IntRange(1, 3).Draw(g.t, "indSites")
 		for i := 0; i < k; i++ {
@@ -1100,6 +1246,7 @@ func (g *gen) genIndirect(pkg *Pkg, earlier []*Pkg, n int) []Decl {
 		}
 		return body
 	}
+	_ = sitesOnOld
 	if g.chance("viaHelper", 60) {
 		h := &FuncDecl{ID: g.p.NewID(), Name: fmt.Sprintf("H%d", n), Pkg: pkg, done: true, called: true}
 		h.Results = []*TypeRef{{Type: t, Ptr: true}}
